@@ -117,6 +117,39 @@ def r_big(form, L, masked):
     cover("two-frames")
 
 
+def r_resume(form, masked):
+    """frame with a 16-/64-bit length whose header arrives in two pieces with a receive timeout in between (cut position a
+    solver choice over every header byte): after the retry the frame and the FOLLOWING frame decode as without the timeout"""
+    quiet_logging()
+    from websocket._exceptions import WebSocketTimeoutException
+    L = 126 if form == 16 else 130
+    p2 = sx.sym_bytes("q", 2)
+    fin, opcode, payload, stream = _big_stream(form, L, masked, server_frame(1, 2, p2))
+    hdr = 2 + (2 if form == 16 else 8) + (4 if masked else 0)
+    cut = sx.choice("cut", hdr + 2) + 1  # 1 .. hdr+2 bytes delivered before the timeout
+    sock = FakeSock([stream[:cut], "timeout", stream[cut:], "eof"])
+    ws = new_ws(sock)
+    frames, timeouts = [], 0
+    while len(frames) < 2 and timeouts < 3:
+        try:
+            frames.append(ws.recv_frame())
+        except WebSocketTimeoutException:
+            timeouts += 1
+        except (sx.Control, sx.ConcreteFailure, sx.ReplayMismatch):
+            raise
+        except Exception as e:
+            sx.require(False, "resumed receive raised %s" % type(e).__name__, form=form, cut=cut)
+            return
+    sx.require(len(frames) == 2 and timeouts == 1, "both frames are delivered after exactly one timeout", form=form, cut=cut, got=len(frames))
+    if len(frames) != 2:
+        return
+    f1, f2 = frames
+    sx.require(sx.And(f1.fin == fin, f1.opcode == opcode, len(f1.data) == L), "header of the resumed frame", form=form, cut=cut, got=len(f1.data))
+    sx.require(f1.data == payload, "payload of the resumed frame", form=form, cut=cut)
+    sx.require(sx.And(f2.opcode == 2, f2.data == p2), "the following frame is parsed from its true start after a resumed read", form=form, cut=cut)
+    cover("resumed")
+
+
 def r_seq(k, api):
     """k back-to-back valid frames with symbolic FIN/opcode/mask/payload; the receive API must hand them out in
     order with identical fields"""
@@ -224,6 +257,9 @@ def obligations(tier):
                    bounds="length forms 7/16/64-bit incl. non-minimal encodings, L in {0,3,5,125,126,127,65535,65536,70000}, masked and "
                           "unmasked; payload symbolic at first/last 8 positions; followed by a second symbolic frame",
                    must_cover=["two-frames"], budget_s=900, kernel=["frame_buffer.recv_frame", "recv_length", "recv_strict"]),
+        Obligation("R-resume", r_resume, [dict(form=f, masked=m) for f in (16, 64) for m in (0, 1)],
+                   bounds="16-/64-bit length frames (126 / 130 bytes), masked and not, with one receive timeout after every possible number of header bytes",
+                   must_cover=["resumed"], kernel=["frame_buffer.recv_frame (stage flags)", "recv_length", "recv_mask"]),
         Obligation("R-seq", r_seq, seq, bounds="k back-to-back frames (k<=%d), each: FIN, opcode, mask bit, key symbolic; payload "
                    "length 0..3 symbolic bytes; through recv_frame / recv_data_frame / recv_data" % max(s["k"] for s in seq),
                    must_cover=["seq-done"], budget_s=2400 if thorough else 600,
